@@ -916,3 +916,56 @@ def pin_history(seed, nops=60, ntok=2, observe=False, grow=False):
             h.op("dumpdir")
     h.op("dumpdir"); h.op("fini")
     return h.text()
+
+
+# ---------------------------------------------------------------------------------------------------------
+# C06: every path that stores a byte string of a private object, with a directory dump after every storing call
+# ---------------------------------------------------------------------------------------------------------
+def enc_history(seed, tables, nops=30, umask=None):
+    rng = random.Random(seed)
+    h = PersistGen(rng, tables)
+    if umask is not None: h.op(f"umask {umask:o}")
+    h.prologue(2)
+    for t in h.toks:
+        k = h.open(t, True); h.login(k, t, 'user')
+    h.op("dumpdir")
+    for n in range(nops):
+        k, t, rw = rng.choice(h.sessions)
+        r = rng.random()
+        if r < 0.25:
+            h.create_obj(k, t, on_token=True, private=rng.random() < 0.7)
+        elif r < 0.40:     # secret key / key pair generation on the token
+            priv = rng.choice(["01", "01", "00"])
+            c = rng.random()
+            if c < 0.4: h.op(f"genkey @{k} 1080 1=01 2={priv} 3={hx(h.new_label())} 161={ul(rng.choice([16, 24, 32]))} 102={data_hex(rng, 9)} 162=01 103=00"); h.minted += 1
+            elif c < 0.6: h.op(f"genkey @{k} 131 1=01 2={priv} 3={hx(h.new_label())} 102={data_hex(rng, 5)}"); h.minted += 1
+            elif c < 0.8: h.op(f"genpair @{k} 1040 180={P256} 1=01 3={hx(h.new_label())} 102={data_hex(rng, 4)} 2={priv} / 1=01 3={hx(h.new_label())} 2=01 101={data_hex(rng, 12)}"); h.minted += 2
+            else: h.op(f"genpair @{k} 0 121={ul(1024)} 122=010001 1=01 3={hx(h.new_label())} / 1=01 3={hx(h.new_label())} 2={priv} 102={data_hex(rng, 6)}"); h.minted += 2
+        elif r < 0.60 and same(h, t):     # copy: upgrades public -> private with fresh byte strings in the template
+            oi, c, tok, _, _ = rng.choice(same(h, t))
+            lab = h.new_label()
+            tpl = [f"3={hx(lab)}", "1=01"]
+            if rng.random() < 0.7: tpl.append("2=01")
+            ids = [a for a in c["attrs"] if a["type"] in (0x102, 0x10, 0x12, 0x101, 0x81)]
+            if ids and rng.random() < 0.7: tpl.append(f"{rng.choice(ids)['type']:x}={data_hex(rng, rng.choice([1, 16, 40]))}")
+            i = h.op(f"copy @{k} @{oi} " + " ".join(tpl)); h.minted += 1
+            h.objs2.append((i, c, tok, True, True)); h.objects.append((i, tok, True, True, lab, k))
+        elif r < 0.78 and same(h, t):
+            oi, c, tok, _, _ = rng.choice(same(h, t)); h.setattrs(k, oi, c)
+        elif r < 0.84:
+            p = new_pin(rng, True)
+            h.op(f"setpin @{k} {hx(t.user)} {hxb(p)}")     # belief: the session is a user session
+            t.user_b = p
+            # keep the believed PIN as bytes from now on
+            t.user = p.decode("latin1")
+        elif r < 0.90 and same(h, t):
+            oi, c, tok, _, _ = rng.choice(same(h, t)); h.getattrs(k, oi, c)
+        else:
+            h.op("dumpdir"); h.restart(rng.choice(["reinit", "exit", "clean"]))
+            for t2 in h.toks:
+                k2 = h.open(t2, True)
+                h.op(f"login @{k2} 1 {hxb(t2.user.encode('latin1')) if isinstance(t2.user, str) else hxb(t2.user)}"); t2.login = 'user'
+                h.refind(k2, t2)
+        h.op("dumpdir")
+    h.op("fini")
+    return h.text()
